@@ -397,6 +397,16 @@ func (env *Env) ident(st *State, name string) Value {
 				return env.load(st, p.L[0], p.L[1], derefType(fv.Type()))
 			}
 		}
+		if allocs := fr.info.varAlloc[name]; len(allocs) > 0 && !env.inOld {
+			// declared later on this path (e.g. an early return): any value
+			t := derefType(allocs[0].Type())
+			lay := v.e.lay.Of(t)
+			val := Value{T: t, L: make([]*Term, len(lay))}
+			for i, sl := range lay {
+				val.L[i] = v.e.sy.Fresh("undef_"+name, sl.K.Sort())
+			}
+			return val
+		}
 	}
 	if gv, ok := v.e.ct.GhostVars[name]; ok {
 		t, err := v.e.resolveType(gv.Type, gv.PkgPath)
@@ -791,7 +801,11 @@ func (env *Env) call(st *State, e CCall) Value {
 			loc := env.loc(st, e.Args[0])
 			p = Value{T: types.NewPointer(loc.typ), L: []*Term{loc.blk, loc.off}}
 		}
-		return boolVal(BoolLit(env.cur(st).held[lockKey(p)]))
+		cs := env.cur(st)
+		if cs.held[lockKey(p)] != nil {
+			return boolVal(TTrue)
+		}
+		return boolVal(cs.heldTerm(p.L[0], p.L[1]))
 	case "fresh":
 		x := arg(0)
 		if env.old == nil {
